@@ -202,3 +202,125 @@ package exec
 //@   loop 1 invariant grants == old(grants) + 1 && doneCalls == old(doneCalls) && offerCalls == old(offerCalls) + 1 && lastOfferProcs == procs && m != nil && lastOfferMgr == mgr && regOK()
 //@   loop 2 invariant grants == old(grants) + 1 && doneCalls == old(doneCalls) && offerCalls == old(offerCalls) + 1 && lastOfferProcs == procs && m != nil && regOK()
 //@   loop 3 invariant grants == old(grants) + 1 && doneCalls == old(doneCalls) && offerCalls == old(offerCalls) + 1 && lastOfferProcs == procs && m != nil && regOK()
+
+// ---- C03: evaluator bookkeeping (sequential abstraction: one evaluator goroutine owns `state`) ----
+
+//@ spec func inPhase(h *Task, x *Task) bool = ite(len(h.Group) == 0, x == h, exists(i, 0, len(h.Group), h.Group[i] == x))
+
+//@ func exec.(*Task).State
+//@   requires t != nil
+//@   ensures  result == t.state
+//@   modifies nothing
+
+//@ func exec.(*Task).Phase
+//@   requires t != nil
+//@   ensures  implies(len(t.Group) == 0, len(result) == 1 && result[0] == t)
+//@   ensures  implies(len(t.Group) != 0, result == t.Group)
+//@   modifies nothing
+
+//@ func exec.(*Task).Head
+//@   requires t != nil
+//@   ensures  result == ite(len(t.Group) == 0, t, t.Group[0])
+//@   modifies nothing
+
+//@ spec func stateOK(s *state) bool = s.deps != nil && s.counts != nil && s.todo != nil && s.pending != nil && s.wait != nil && s.todo != s.pending && s.counts != s.wait
+
+//@ func exec.(*state).schedule
+//@   requires s != nil && stateOK(s)
+//@   ensures  scheduled-unless-pending: implies(!s.pending[task], s.todo[task])
+//@   ensures  todo-only-grows: forall(x, implies(old(s.todo[(*Task)(x)]), s.todo[(*Task)(x)])) && forall(x, implies((*Task)(x) != task, s.todo[(*Task)(x)] == old(s.todo[(*Task)(x)])))
+//@   ensures  never-both: implies(old(s.pending[task]), s.todo[task] == old(s.todo[task]))
+//@   modifies s.todo[:]
+
+//@ func exec.(*state).Todo
+//@   requires s != nil && stateOK(s)
+//@   ensures  result == (len(s.todo) > 0)
+//@   modifies nothing
+
+//@ func exec.(*state).Done
+//@   requires s != nil && stateOK(s)
+//@   ensures  result == (s.err != nil || (len(s.todo) == 0 && len(s.pending) == 0))
+//@   modifies nothing
+
+//@ func exec.(*state).Err
+//@   requires s != nil
+//@   ensures  result == s.err
+//@   modifies nothing
+
+//@ spec func todoOK(s *state) bool = forall(x, implies(has(s.todo, (*Task)(x)), s.todo[(*Task)(x)]))
+
+//@ func exec.(*state).Runnable
+//@   requires s != nil && stateOK(s) && todoOK(s)
+//@   ensures  moved-from-todo: forall(i, 0, len(tasks), let(ti, tasks[i], old(s.todo[ti])))
+//@   ensures  moved-to-pending: forall(i, 0, len(tasks), s.pending[tasks[i]])
+//@   ensures  todo-emptied: forall(x, !has(s.todo, (*Task)(x)))
+//@   ensures  pending-exact: forall(x, s.pending[(*Task)(x)] == (old(s.pending[(*Task)(x)]) || old(s.todo[(*Task)(x)])))
+//@   modifies s.todo[:], s.pending[:]
+//@   loop 1 invariant stateOK(s) && (tasks == nil || fresh(tasks))
+//@   loop 1 invariant forall(x, implies(range_visited[x], old(s.todo[(*Task)(x)]) && !has(s.todo, (*Task)(x)) && s.pending[(*Task)(x)]))
+//@   loop 1 invariant forall(x, implies(!range_visited[x], has(s.todo, (*Task)(x)) == old(has(s.todo, (*Task)(x))) && s.todo[(*Task)(x)] == old(s.todo[(*Task)(x)]) && s.pending[(*Task)(x)] == old(s.pending[(*Task)(x)])))
+//@   loop 1 invariant forall(i, 0, len(tasks), range_visited[tasks[i]])
+
+// Task graphs are well formed: groups and dependency heads are non-nil, and dependencies are acyclic
+// (rank strictly decreases along dependencies and is constant within a phase).
+//@ spec func rank(t *Task) int
+//@ spec func tasksOK() bool = forall(x, implies((*Task)(x) != nil, TaskInit <= (*Task)(x).state && (*Task)(x).state <= TaskLost && forall(i, 0, len((*Task)(x).Group), (*Task)(x).Group[i] != nil && rank((*Task)(x).Group[i]) == rank((*Task)(x))) && forall(d, 0, len((*Task)(x).Deps), (*Task)(x).Deps[d].Head != nil && rank((*Task)(x).Deps[d].Head) < rank((*Task)(x)))))
+//@ spec func waitOK(s *state) bool = forall(h, implies(has(s.wait, (*Task)(h)), s.wait[(*Task)(h)] >= 0))
+//@ spec func memoDone(s *state, h *Task) bool = has(s.wait, h) && s.wait[h] == 0
+//@ spec func headOf(t *Task) *Task = ite(len(t.Group) == 0, t, t.Group[0])
+//@ spec func phaseOf(t *Task, x *Task) bool = ite(len(t.Group) == 0, x == t, exists(i, 0, len(t.Group), t.Group[i] == x))
+//@ spec func readyToStart(s *state, x *Task) bool = forall(d, 0, len(x.Deps), memoDone(s, headOf(x.Deps[d].Head)))
+
+//@ func exec.(*state).add
+//@   requires s != nil && stateOK(s)
+//@   ensures  stateOK(s)
+//@   ensures  only-counts-of-dst: forall(x, implies((*Task)(x) != dst, s.counts[(*Task)(x)] == old(s.counts[(*Task)(x)])))
+//@   modifies s.deps[:], s.counts[:], maps(*Task, struct{})
+
+//@ func exec.(*state).clear
+//@   requires s != nil && stateOK(s) && task != nil
+//@   ensures  stateOK(s) && !has(s.counts, task)
+//@   ensures  forall(x, implies((*Task)(x) != task, s.counts[(*Task)(x)] == old(s.counts[(*Task)(x)])))
+//@   modifies s.counts[:], maps(*Task, struct{})
+//@   loop 1 invariant stateOK(s) && !has(s.counts, task) && forall(x, implies((*Task)(x) != task, s.counts[(*Task)(x)] == old(s.counts[(*Task)(x)])))
+
+//@ func exec.(*state).done
+//@   requires s != nil && stateOK(s)
+//@   ensures  stateOK(s)
+//@   ensures  released-at-zero: forall(i, 0, len(ready), s.counts[ready[i]] == 0)
+//@   modifies s.counts[:]
+//@   loop 1 invariant stateOK(s) && (ready == nil || fresh(ready)) && forall(i, 0, len(ready), s.counts[ready[i]] == 0 && range_visited[ready[i]])
+//@   loop 1 invariant forall(x, implies(!range_visited[x], s.counts[(*Task)(x)] == old(s.counts[(*Task)(x)])))
+
+//@ func exec.(*state).Enqueue (task) (nwait)
+//@   requires s != nil && stateOK(s) && task != nil && tasksOK() && waitOK(s)
+//@   ensures  stateOK(s) && nwait >= 0 && waitOK(s)
+//@   ensures  memo: has(s.wait, old(headOf(task))) && s.wait[old(headOf(task))] == nwait
+//@   ensures  wait-only-grows: forall(h, implies(old(has(s.wait, (*Task)(h))), has(s.wait, (*Task)(h)) && s.wait[(*Task)(h)] == old(s.wait[(*Task)(h)])))
+//@   ensures  todo-only-grows: forall(x, implies(old(s.todo[(*Task)(x)]), s.todo[(*Task)(x)]))
+//@   ensures  pending-unchanged: forall(x, s.pending[(*Task)(x)] == old(s.pending[(*Task)(x)]))
+//@   ensures  new-work-below: forall(x, implies(s.todo[(*Task)(x)] && !old(s.todo[(*Task)(x)]), rank((*Task)(x)) <= rank(task)))
+//@   ensures  new-memo-below: forall(h, implies(has(s.wait, (*Task)(h)) && !old(has(s.wait, (*Task)(h))), rank((*Task)(h)) <= rank(task)))
+//@   ensures  zero-means-done: implies(nwait == 0 && !old(has(s.wait, headOf(task))), forall(x, implies(phaseOf(task, (*Task)(x)), (*Task)(x).state == TaskOk)))
+//@   known zero-means-done excl forall(x, (*Task)(x).state != TaskErr)
+//@   ensures  awaited-when-running-elsewhere: implies(!old(has(s.wait, headOf(task))), forall(x, implies(phaseOf(task, (*Task)(x)) && ((*Task)(x).state == TaskWaiting || (*Task)(x).state == TaskRunning), s.todo[(*Task)(x)] || s.pending[(*Task)(x)])))
+//@   ensures  started-only-when-ready: forall(x, implies(s.todo[(*Task)(x)] && !old(s.todo[(*Task)(x)]) && ((*Task)(x).state == TaskInit || (*Task)(x).state == TaskLost), readyToStart(s, (*Task)(x))))
+//@   modifies s.wait[:], s.todo[:], s.counts[:], s.deps[:], maps(*Task, struct{})
+//@   loop 1 invariant stateOK(s) && nwait >= 0 && tasksOK() && waitOK(s) && len(range_coll) >= 1 && forall(j, 0, len(range_coll), range_coll[j] != nil && rank(range_coll[j]) == rank(arg0))
+//@   loop 1 invariant ph: forall(x, phaseOf(arg0, (*Task)(x)) == exists(j, 0, len(range_coll), range_coll[j] == (*Task)(x)))
+//@   loop 1 invariant wg: forall(h, implies(old(has(s.wait, (*Task)(h))), has(s.wait, (*Task)(h)) && s.wait[(*Task)(h)] == old(s.wait[(*Task)(h)])))
+//@   loop 1 invariant tg: forall(x, implies(old(s.todo[(*Task)(x)]), s.todo[(*Task)(x)])) && forall(x, s.pending[(*Task)(x)] == old(s.pending[(*Task)(x)]))
+//@   loop 1 invariant rk: forall(x, implies(s.todo[(*Task)(x)] && !old(s.todo[(*Task)(x)]), rank((*Task)(x)) <= rank(arg0))) && forall(h, implies(has(s.wait, (*Task)(h)) && !old(has(s.wait, (*Task)(h))), rank((*Task)(h)) < rank(arg0)))
+//@   loop 1 invariant zd: implies(nwait == 0, forall(j, 0, range_idx, range_coll[j].state == TaskOk || range_coll[j].state == TaskErr))
+//@   loop 1 invariant aw: forall(j, 0, range_idx, implies(range_coll[j].state == TaskWaiting || range_coll[j].state == TaskRunning, s.todo[range_coll[j]] || s.pending[range_coll[j]]))
+//@   loop 1 invariant rd: forall(x, implies(s.todo[(*Task)(x)] && !old(s.todo[(*Task)(x)]) && ((*Task)(x).state == TaskInit || (*Task)(x).state == TaskLost), readyToStart(s, (*Task)(x))))
+//@   loop 2 invariant stateOK(s) && nwait >= 0 && tasksOK() && waitOK(s)
+//@   loop 2 invariant tk: task != nil && rank(task) == rank(arg0) && range_coll == task.Deps
+//@   loop 2 invariant db: forall(d, 0, len(task.Deps), task.Deps[d].Head != nil && rank(task.Deps[d].Head) < rank(task))
+//@   loop 2 invariant wg: forall(h, implies(old(has(s.wait, (*Task)(h))), has(s.wait, (*Task)(h)) && s.wait[(*Task)(h)] == old(s.wait[(*Task)(h)])))
+//@   loop 2 invariant tg: forall(x, implies(old(s.todo[(*Task)(x)]), s.todo[(*Task)(x)])) && forall(x, s.pending[(*Task)(x)] == old(s.pending[(*Task)(x)]))
+//@   loop 2 invariant rk: forall(x, implies(s.todo[(*Task)(x)] && !old(s.todo[(*Task)(x)]), rank((*Task)(x)) <= rank(arg0))) && forall(h, implies(has(s.wait, (*Task)(h)) && !old(has(s.wait, (*Task)(h))), rank((*Task)(h)) < rank(arg0)))
+//@   loop 2 invariant zd: implies(nwait == 0, forall(j, 0, range_idx1, range_coll1[j].state == TaskOk || range_coll1[j].state == TaskErr))
+//@   loop 2 invariant aw: forall(j, 0, range_idx1, implies(range_coll1[j].state == TaskWaiting || range_coll1[j].state == TaskRunning, s.todo[range_coll1[j]] || s.pending[range_coll1[j]]))
+//@   loop 2 invariant rd: forall(x, implies(s.todo[(*Task)(x)] && !old(s.todo[(*Task)(x)]) && ((*Task)(x).state == TaskInit || (*Task)(x).state == TaskLost), readyToStart(s, (*Task)(x))))
+//@   loop 2 invariant ry: implies(ready, forall(d, 0, range_idx, memoDone(s, headOf(task.Deps[d].Head))))
